@@ -35,6 +35,10 @@ pub struct S09 {
     pub keep_words: usize,
     /// zero-extended only: ops issued after the items that lie within the data
     pub tail: Vec<ROp>,
+    /// insert a raw filler before the last element so that it ends exactly on the last
+    /// bit of the data (no truncation then): the tail of the stream must not be lost
+    #[serde(default)]
+    pub align_tail: bool,
 }
 
 pub struct C09;
@@ -120,6 +124,26 @@ impl Family for C09 {
                 _ => ROp::Peek(rng.usize_range(1, rkind.max_peek())),
             });
         }
+        let align_tail = rng.chance(1, 4);
+        let mut elems = elems;
+        if align_tail && rng.chance(1, 2) {
+            // a last element with a very short codeword (0 or 1 in a random code)
+            let code = gen_code(rng);
+            let v = match code {
+                Code::MinBin(_) => 0,
+                _ => rng.below(2),
+            };
+            elems.push(Elem::Code { code, wtab: rng.below(5) as u8, rtab: if rkind == RdKind::B8 { 0 } else { rng.below(5) as u8 }, v });
+            if rkind == RdKind::B8 {
+                if let Some(Elem::Code { code, rtab, .. }) = elems.last_mut() {
+                    let mut t = *rtab % code.n_rtabs();
+                    while !code.rtables(t).is_empty() {
+                        t = (t + 1) % code.n_rtabs();
+                    }
+                    *rtab = t;
+                }
+            }
+        }
         S09 {
             e,
             rkind,
@@ -128,24 +152,55 @@ impl Family for C09 {
             elems,
             keep_words,
             tail,
+            align_tail,
         }
     }
 
     fn exec(s: &S09, ctx: &mut Ctx) {
         ctx.step(vec![format!("e={:?}", s.e), "op=write".into()]);
-        let w = match write_stream(s.e, Wd::U64, &WrBackend::Vec, &s.offset, &s.elems, ctx) {
+        let mut w = match write_stream(s.e, Wd::U64, &WrBackend::Vec, &s.offset, &s.elems, ctx) {
             Ok(w) => w,
             // a failure of the writer is C03's business; nothing to check here
             Err(_) => return,
         };
+        // optionally re-write the stream with a filler so that the last element ends exactly
+        // on the last bit of the last reader word
+        let mut elems_store: Vec<Elem>;
+        let mut elems: &[Elem] = &s.elems;
+        let mut keep_all = false;
+        if s.align_tail && !s.elems.is_empty() {
+            let wb = s.rkind.word_bits();
+            let total = *w.starts.last().unwrap();
+            let fill = (wb - total % wb) % wb;
+            elems_store = s.elems.clone();
+            let last = elems_store.pop().unwrap();
+            let mut left = fill;
+            while left > 0 {
+                let n = left.min(64);
+                elems_store.push(Elem::Raw { v: mask(0xA5A5_5A5A_C3C3_3C3C, n), n });
+                left -= n;
+            }
+            elems_store.push(last);
+            w = match write_stream(s.e, Wd::U64, &WrBackend::Vec, &s.offset, &elems_store, ctx) {
+                Ok(w) => w,
+                Err(_) => return,
+            };
+            elems = &elems_store;
+            keep_all = true;
+            ctx.probe("c09.tail_aligned_to_end_of_data");
+        }
         let wbytes = s.rkind.word_bits() / 8;
         let mut img = w.bytes.clone();
         // pad to a whole number of reader words, then cut
         while img.len() % wbytes != 0 {
             img.push(0);
         }
-        let total_words = img.len() / wbytes;
-        let keep = s.keep_words.min(total_words);
+        let total_words = if keep_all {
+            (*w.starts.last().unwrap()).div_ceil(s.rkind.word_bits())
+        } else {
+            img.len() / wbytes
+        };
+        let keep = if keep_all { total_words } else { s.keep_words.min(total_words) };
         img.truncate(keep * wbytes);
         let cut_bits = keep * s.rkind.word_bits();
         ctx.probe_if(keep < total_words, "c09.truncated");
@@ -160,7 +215,7 @@ impl Family for C09 {
         for (_v, n) in &s.offset {
             ops.push((ROp::Bits(*n), None, *n));
         }
-        for (i, el) in s.elems.iter().enumerate() {
+        for (i, el) in elems.iter().enumerate() {
             match el {
                 Elem::Raw { n, .. } => ops.push((ROp::Bits(*n), None, *n)),
                 Elem::Code { code, rtab, v, .. } => ops.push((
@@ -396,6 +451,7 @@ impl Family for C09 {
             "c09.err_in_read_bits",
             "c09.zero_ext_read_beyond_end",
             "c09.unbuffered_skip_then_read_err",
+            "c09.tail_aligned_to_end_of_data",
         ]
     }
 
